@@ -12,6 +12,7 @@ DECIDES = ('for insert_knot x {curve, surface u/v, volume u/v/w}: every per-dire
 NOT_DECIDED = ('that evaluated points are unchanged (needs C01); the blending arithmetic is decided as an exact identity for the three enumerated nets (degree 2 and 3, simple and double interior knots), not for every degree and knot vector, and not to floating-point rounding.')
 TECHNIQUE = 'axis-tag dataflow, stride rule in polynomial normal form, CFG dominance of guards, structural gather/scatter rules'
 DECIDES += (' [ABSTRACT INTERPRETATION, exact] KI3: helpers.knot_insertion on exact rational knots and symbolic control points equals r single Boehm insertions, for every span, existing multiplicity and admissible count of three nets.')
+DECIDES += (' KD5: the setters store floats in fresh lists (the row helpers dispatch on isinstance(x[0][0], float)); TOL2: the multiplicity count the admissibility test relies on compares every knot with the parameter through the tolerance.')
 
 
 def check(m, run):
